@@ -433,6 +433,8 @@ def skeleton_rule(rep, f, name, value_arg, base, rule='R-SKELETON'):
                 # index form: base[idx] with idx a loop-carried integer
                 for o in g.ops[1:]:
                     x = strip(f, o)
+                    if x.k == 'inst' and f.insts[x.id].op in ('add', 'sub') and f.insts[x.id].ops[1].k == 'ci':
+                        x = strip(f, f.insts[x.id].ops[0])          # buf[--pos] / buf[pos - 1]: the index is the stepped cursor
                     if x.k == 'inst' and f.insts[x.id].op == 'phi' and f.insts[x.id].block is L['header']:
                         cur = f.insts[x.id]
         if cur is None or cur.block is not L['header']:
@@ -450,6 +452,8 @@ def skeleton_rule(rep, f, name, value_arg, base, rule='R-SKELETON'):
                 o2 = [o for o in g.ops if o.k != 'ci']
                 if o2 and o2[0].k == 'inst' and o2[0].id == cur.id:
                     step = [o for o in g.ops if o.k == 'ci'][0].ival
+            elif g.op == 'sub' and g.ops[1].k == 'ci' and g.ops[0].k == 'inst' and g.ops[0].id == cur.id:
+                step = -g.ops[1].ival
         return cur, step
     if stores and all(s.d.get('store_size') == 1 for s in stores):
         cs = [cursor_of(s) for s in stores]
